@@ -344,6 +344,14 @@ func (o *Obligation) Render(withModel bool) string {
 	logic := "ALL"
 	b.WriteString("(set-logic " + logic + ")\n")
 	for _, d := range s.decls[:o.nDecls] {
+		if o.Cover && strings.HasPrefix(d, "(define-fun-rec ") {
+			// vacuity guards only need satisfiability: recursive range quantifiers are abstracted
+			// to uninterpreted predicates (solvers rarely produce models through recursion)
+			d = abstractRecFun(d)
+		}
+		if o.Cover && strings.HasPrefix(d, "(assert (forall ") {
+			continue // quantified background axioms are not needed for a satisfiability witness
+		}
 		b.WriteString(d)
 		b.WriteByte('\n')
 	}
@@ -657,4 +665,59 @@ func sortedKeys[V any](m map[string]V) []string {
 	}
 	sort.Strings(ks)
 	return ks
+}
+
+// abstractRecFun turns "(define-fun-rec name ((p S) ...) R body)" into a declare-fun.
+func abstractRecFun(d string) string {
+	toks := tokenizeSexp(d)
+	// ( define-fun-rec name ( (p S) ... ) R ...
+	if len(toks) < 5 {
+		return d
+	}
+	name := toks[2]
+	i := 3
+	if toks[i] != "(" {
+		return d
+	}
+	i++
+	var sorts []string
+	for i < len(toks) && toks[i] == "(" {
+		// ( p S )  where S may be compound
+		i += 2
+		depth := 0
+		start := i
+		for i < len(toks) {
+			if toks[i] == "(" {
+				depth++
+			} else if toks[i] == ")" {
+				if depth == 0 {
+					break
+				}
+				depth--
+			}
+			i++
+		}
+		sorts = append(sorts, strings.Join(toks[start:i], " "))
+		i++ // closing of (p S)
+	}
+	i++ // closing of param list
+	// return sort
+	ret := toks[i]
+	if ret == "(" {
+		depth := 0
+		start := i
+		for i < len(toks) {
+			if toks[i] == "(" {
+				depth++
+			} else if toks[i] == ")" {
+				depth--
+				if depth == 0 {
+					break
+				}
+			}
+			i++
+		}
+		ret = strings.Join(toks[start:i+1], " ")
+	}
+	return fmt.Sprintf("(declare-fun %s (%s) %s)", name, strings.Join(sorts, " "), ret)
 }
